@@ -91,10 +91,6 @@ Definition tied_with (cur : option gid) (g : gid) (woke : list (gid * Z)) : bool
   | _, _ => false
   end.
 
-(* killed by an earlier body, its turn in the running frame has not come yet *)
-Definition not_met (g : gid) (gh : list (gid * ghost)) : bool :=
-  match alookup g gh with Some ZNow => true | _ => false end.
-
 Definition add_risk (b : bool) (g : gid) (t : spec) : spec :=
   mkSp (t_st t) (t_pc t) (t_val t) (t_fin t) (t_order t) (t_norder t) (t_due t) (t_ran t)
        (t_ghost t) (t_woke t) (if b then g :: t_risky t else t_risky t) (t_cur t)
@@ -110,13 +106,13 @@ Definition sp_action (t : spec) (a : action) (o : outcome) : spec :=
          resumption executes no code, so nothing of it can be observed *)
       let t := flagwf (negb (memz g (t_fin t))) t in
       (* also outside: a coroutine whose wait ran out in this frame, killed by
-         an earlier body before its turn, restarted by the body of a coroutine
+         an earlier body before it ran, restarted by the body of a coroutine
          whose wait ran out in this frame with the very same deadline, and
          then not run in this frame.  (The heap order of equal deadlines is
          open; in every other case the log shows it, here it would matter
          without showing.)  Such a restart is remembered in [t_risky] and
          judged at the end of the frame. *)
-      let t := add_risk (is_ok o && not_met g (t_ghost t) && tied_with (t_cur t) g (t_woke t)) g t in
+      let t := add_risk (is_ok o && negb (memz g (t_ran t)) && tied_with (t_cur t) g (t_woke t)) g t in
       if is_ok o then started t g else t
   | AKill g => if is_ok o then killed t g else t
   | AState _ => t
@@ -190,23 +186,18 @@ Definition tick_gh (dt : Z) (x : gid * ghost) : gid * ghost :=
 Definition act_keys (l : list (gid * status)) : list gid :=
   flat_map (fun x => match x with (g, SAct) => [g] | _ => [] end) l.
 
-(* the waits that run out in this frame (of live and of killed waiters),
-   each with the time by which it is overdue: equal values = equal deadlines *)
+(* the waits that run out in this frame, each with the time by which it is
+   overdue: equal values = equal deadlines *)
 Definition woke_st (dt : Z) (l : list (gid * status)) : list (gid * Z) :=
   flat_map (fun x => match x with
                      | (g, SPaused r) => if r - dt <=? 0 then [(g, r - dt)] else []
                      | _ => [] end) l.
-Definition woke_gh (dt : Z) (l : list (gid * ghost)) : list (gid * Z) :=
-  flat_map (fun x => match x with
-                     | (g, ZWait r) => if r - dt <=? 0 then [(g, r - dt)] else []
-                     | _ => [] end) l.
-
 (* start of a frame: time passes for every waiter; those whose wait has run
    out are runnable again; every runnable coroutine is owed a step *)
 Definition tick (dt : Z) (t : spec) : spec :=
   let st' := map (tick_st dt) (t_st t) in
   mkSp st' (t_pc t) (t_val t) (t_fin t) (t_norder t) [] (act_keys st') []
-       (map (tick_gh dt) (t_ghost t)) (woke_st dt (t_st t) ++ woke_gh dt (t_ghost t)) [] None
+       (map (tick_gh dt) (t_ghost t)) (woke_st dt (t_st t)) [] None
        (ok08 t) (ok09 t) (okwf t).
 
 Definition gh_stays (x : gid * ghost) : bool :=
